@@ -101,11 +101,14 @@ def run(ctx):
             o = obs[ln - 1]
             key = (o["t"], o["v"], o["chain"][-1] if o["chain"] else "", o["got"] == "panic")
             k2 = (o["t"], o["chain"][-1] if o["chain"] else "")
-            if k2 in reported or len(reported) >= 40:
+            known = o["v"] == "vst" and o["chain"] and o["chain"][0] == "ntelem" and ("-then-" in o["t"] and o["t"].endswith("store"))
+            if known:
+                k2 = ("known",) + k2
+            if k2 in reported or len(reported) >= 60:
                 continue
             reported.add(k2)
             vlib.violation(ctx, "template %s with %s through %s: outcome %s, but %s with the bare variable\n%s" % (o["t"], o["v"], "/".join(o["chain"]), o["got"][:120], o["base"][:120], o["src"]),
-                           {"kind": "prov", "obs": o})
+                           dict({"kind": "prov", "obs": o}, **({"finding_key": "prov:struct-typed-elem-alias"} if o["v"] == "vst" and o["chain"] and o["chain"][0] == "ntelem" and ("-then-" in o["t"] and o["t"].endswith("store")) else {})))
     ctx.cov["templates"] = len(T)
     ctx.cov["values"] = len(VARS)
     if not ctx.violations:
